@@ -18,6 +18,7 @@ class Scan(Family):
     name = "scan"
     doc = "real find_closest_* scans on symbolic strictly increasing x and sorted queries vs the definition"
     expect = ["lower", "higher", "closest", "dispatch"]
+    split_depth = 10        # large shapes: subtrees below 10 decisions become separate tasks
 
     def configs(self, tier):
         nxs, nqs = ((1, 2, 3, 4, 5, 6), (1, 2, 3, 4)) if tier == "quick" else ((1, 2, 3, 4, 5, 6, 7, 8), (1, 2, 3, 4, 5))
